@@ -68,6 +68,7 @@ def run(F, rep, tier):
     import c13
     core.borrow(rep, lambda F_, r_: c13.run(F_, r_, "quick"), lambda o: o["rule"] == "UNARY", F)
     comments(F, rep)
+    raw_text_scan_is_anchored(F, rep)
     no_layout_flow(F, rep)
     paren_transparent(F, rep)
     prime_continuation(F, rep)
@@ -921,3 +922,20 @@ def _mode_after(site, parents, parsers, PUSH):
                     return "looks at the token behind the bracket (`%s`) with newline skipping as it was - a line break directly after the " \
                            "bracket is the token it sees" % pp(x)[:40]
     return "returns without switching newline skipping on"
+
+
+def raw_text_scan_is_anchored(F, rep, rule="COMMENT"):
+    """One pass reads the source *text*, before there are tokens: the search for git conflict markers.  It cannot tell a comment from
+    code, so it may only look where no comment text can be - at the first characters of a line (a comment starts with `//`).  A search
+    inside the line (`find`, `contains`) finds the marker in the text of a comment, and a program is rejected for what a comment says."""
+    fn = F.fn("sylt_parser::find_conflict_markers")
+    rep.analysed(fn)
+    inside = [c for c in nodes(fn_body(fn), "MethodCall") if c["m"] in ("find", "rfind", "contains", "matches", "match_indices", "rmatches",
+              "ends_with", "split", "split_once", "rsplit", "trim_start_matches", "strip_suffix") and "str" in (peel(c["recv"]).get("ty") or "str")]
+    anchored = [c for c in nodes(fn_body(fn), "MethodCall") if c["m"] in ("starts_with", "strip_prefix")]
+    rep.ob(rule, "raw-text-scan|looks-at-line-starts-only", bool(anchored) and not inside,
+           "the search for conflict markers in the raw text tests the start of each line only (%d test(s)): no comment text is looked at" % len(anchored)
+           if anchored and not inside else
+           "find_conflict_markers searches inside the lines of the raw text (`%s`): the text of a comment is searched too, so a program "
+           "whose comment mentions `<<<<<<<` is rejected while the same program without the comment compiles" % (pp(inside[0])[:50] if inside else "no anchored test"),
+           line_of(inside[0]) if inside else fn["sp"])
